@@ -5,11 +5,12 @@ import (
 	"time"
 
 	"berty.tech/go-orbit-db/iface"
+	"berty.tech/go-orbit-db/stores/operation"
 )
 
 func init() {
 	Register(&Scenario{Prop: "C15", Name: "load-limit", Run: scenC15, SoftParks: true, Weight: 1,
-		Rule: "node T persists a log of 1-9 (thorough 1-20) entries: single-writer chain, or several heads built from local writes plus entries replicated from 1-2 feeders under reorder; T is closed; then for EVERY limit n in {-3,-1,0,1,...,total+3}, given per call or through the MaxHistory option, the final durable image is reopened in isolation and Load(n) runs; oracle: n>0 => exactly min(n,total) entries visible, in an order consistent with the full listing, newest entry included, and for a single-writer log exactly the n most recent; n<=0 => everything; never a panic or an error on a short log; in a third of the cases a second Load with another limit follows on the same store object (no panic, no error, still a part of the log in its order with the newest entry; how many entries a second load shows is not judged); one evaluation = one persisted log with all its limits; non-trivial = total>=3 and at least one limit strictly inside (0,total) and one beyond total"})
+		Rule: "node T persists a log of 1-9 (thorough 1-20) entries: single-writer chain, or several heads built from local writes plus entries replicated from 1-2 feeders under reorder; T is closed; then for EVERY limit n in {-3,-1,0,1,...,total+3}, given per call or through the MaxHistory option, the final durable image is reopened in isolation and Load(n) runs; oracle: n>0 => exactly min(n,total) entries visible, in an order consistent with the full listing, newest entry included, and for a single-writer log exactly the n most recent; n<=0 => everything; never a panic or an error on a short log; in a third of the cases a second Load with another limit follows on the same store object (no panic, no error, still a part of the log in its order with the newest entry; how many entries a second load shows is not judged); in a fifth of the cases with a positive limit one local write lands while the load is under way (both succeed; at most min(n,total) of the persisted entries visible, in order; an entry beyond the limit only if it is that write and it is the newest; view = replay of the log); one evaluation = one persisted log with all its limits; non-trivial = total>=3 and at least one limit strictly inside (0,total) and one beyond total"})
 }
 
 func scenC15(k *K) {
@@ -113,6 +114,10 @@ func c15LoadOpt(k *K, c *Cluster, T *Node, lim int, viaOption bool, full []strin
 	}
 	st := op.Val.(iface.Store)
 	k.W.Stat("load-limit-case")
+	if !refusedInHistory && lim > 0 && k.C.Chance(1, 5) {
+		c15LoadBesideWrite(k, rp, st, how, callLim, lim, full)
+		return
+	}
 	lop := k.Do(rn.Idx, how, 200, func() (interface{}, error) {
 		ctx, cancel := OpCtx(2 * time.Minute)
 		defer cancel()
@@ -219,4 +224,79 @@ func scenC15Refused(k *K) {
 	k.Notes["tainted_merged"] = tainted
 	k.Notes["nontrivial"] = tainted > 0 && inside
 	c.CloseAll()
+}
+
+// c15LoadBesideWrite: one local write lands while the limited load is under way (its block
+// reads take kernel steps). The write may come before or after the cut the load makes, so
+// what is judged is what holds either way: both calls succeed; of the persisted entries at
+// most min(n,total) are visible, in log order; one entry more than the limit is visible only
+// if it is the concurrent write and that write came last, on top of everything the load had
+// made visible (it is the newest entry then); the view agrees with the log
+func c15LoadBesideWrite(k *K, rp *Peer, st iface.Store, how string, callLim, lim int, full []string) {
+	total := len(full)
+	how += " beside a local write"
+	k.W.Stat("load-beside-write")
+	rp.Inc.SetSlowLocal(true)
+	defer rp.Inc.SetSlowLocal(false)
+	lop := k.Go(rp.Node.Idx, how, func() (interface{}, error) {
+		ctx, cancel := OpCtx(2 * time.Minute)
+		defer cancel()
+		return nil, st.Load(ctx, callLim)
+	})
+	k.Wait()
+	saved := k.F
+	k.F = FaultCfg{Serve: 3, ServeAny: 1}
+	for j, m := 0, k.C.Intn(5); j < m && !k.IsDone(lop); j++ {
+		k.Step()
+	}
+	wop := k.Go(rp.Node.Idx, "write-during-load", func() (interface{}, error) {
+		ctx, cancel := OpCtx(2 * time.Minute)
+		defer cancel()
+		return c09Write(ctx, st, "during-load")
+	})
+	for j := 0; j < 400 && !(k.IsDone(lop) && k.IsDone(wop)); j++ {
+		k.Step()
+	}
+	k.F = saved
+	if !k.IsDone(lop) || !k.IsDone(wop) {
+		k.Failf("C15/hang", "%s on a %d-entry log: load done=%v, write done=%v; pending=%v", how, total, k.IsDone(lop), k.IsDone(wop), k.PendingDesc())
+	}
+	if lop.Err != nil {
+		k.Failf("C15/load-error", "%s on a %d-entry log failed: %v", how, total, lop.Err)
+	}
+	if wop.Err != nil {
+		k.Failf("C15/write-error", "a local write beside %s failed: %v", how, wop.Err)
+	}
+	w := wop.Val.(operation.Operation).GetEntry().GetHash().String()
+	got := LogHashSeq(st)
+	var persisted []string
+	wpos := -1
+	for i, h := range got {
+		if h == w {
+			wpos = i
+		} else {
+			persisted = append(persisted, h)
+		}
+	}
+	want := total
+	if lim < total {
+		want = lim
+	}
+	if len(persisted) > want {
+		k.Failf("C15/count/limit-inside", "%s on a persisted %d-entry log made %d of the persisted entries visible, expected at most %d", how, total, len(persisted), want)
+	}
+	if !isSubsequence(persisted, full) {
+		k.Failf("C15/order", "%s lists entries out of log order: positions %s of the full listing", how, positions(full, persisted))
+	}
+	if len(got) > lim && (wpos != len(got)-1) {
+		k.Failf("C15/not-most-recent", "%s made %d entries visible; the one beyond the limit can only be the concurrent write coming on top of what the load left, but that write is at position %d of %d (older entries than the invisible ones are visible)", how, len(got), wpos, len(got))
+	}
+	if len(got) == 0 {
+		k.Failf("C15/count/limit-inside", "%s left nothing visible", how)
+	}
+	if kv, ok := st.(iface.KeyValueStore); ok {
+		if got, want := MapStr(KVState(kv)), MapStr(ReplayLWW(LogValues(st))); got != want {
+			k.Failf("C15/view-differs", "after %s the key-value view is {%s} but the %d entries the log holds replay to {%s}", how, got, len(LogValues(st)), want)
+		}
+	}
 }
